@@ -141,7 +141,7 @@ def check_C12(report, tier, seed, replay=None):
 C06_VALUES = ["a", "INBOX.x", 'q"uote', "back\\slash", "end\\", "a,b", "[x]", "]", "two\nlines", "café", "日本", "x y",
               '") { discard; } #', "\\\"", "a\rb", "${v}", "", "#c", "/*c*/", "x;y", "text:", "{", "}", "\t", "a'b",
               'a"', "é\\\"", ",", ";"]
-C19_VALUES = ["a", "toto@toto.com", "two words", "[x]", "x]y[", "café", "日本", "a b c", "list-help", "+0100", "2019-02-26",
+C19_VALUES = ["notes", "nothing-special", "a", "toto@toto.com", "two words", "[x]", "x]y[", "café", "日本", "a b c", "list-help", "+0100", "2019-02-26",
               "x;y", "(p)", "{b}", "a'b", "é è", " free ", "winner ", " x"]
 COMMA_VALUES = ["a,b", ",", "x, y"]
 
